@@ -4,6 +4,7 @@ package main
 
 import (
 	"fmt"
+	"go/token"
 	"sort"
 	"strings"
 
@@ -125,6 +126,31 @@ func (c *Ctx) orderedWrites(fn *ssa.Function, first, second map[*ssa.Function]bo
 	return "", n
 }
 
+// headStateRules: a block header carries the application root of the PREVIOUS height; the root of the state after block H
+// is the one recorded under H (rawdb app-hash index). Every "is the state of this block on disk" question in the block
+// chain asks for the recorded root of that block's height, or start-up skips the rewind it needs after a crash between
+// the head marker and the state flush.
+func headStateRules(c *Ctx) {
+	n := 0
+	per := map[string]int{}
+	for _, s := range c.CallSites(`^\(\*mainchain/blockchain\.BlockChain\)\.HasState$`) {
+		caller := fnName(rootFn(s.Caller))
+		if !strings.Contains(caller, "mainchain/blockchain") {
+			continue
+		}
+		cc := callCommon(s.Instr)
+		if cc == nil || len(cc.Args) != 2 {
+			continue
+		}
+		n++
+		per[caller]++
+		arg := pathOf(cc.Args[1])
+		ok := re(`^call:kai/rawdb\.ReadAppHash\([^,]+, call:\(\*types\.Block\)\.Height\(`).MatchString(arg)
+		c.Check("F", fmt.Sprintf("%s/HasState (call %d of this function) asks for the root recorded for the block's height", caller, per[caller]), ok, instrPos(s.Instr), 1, clip(arg, 160))
+	}
+	c.Check("F", "mainchain/blockchain/HasState call sites enumerated", n >= 3, token.NoPos, n, "")
+}
+
 func runC05(c *Ctx) {
 	c.Decided = []string{
 		"own (internal-queue) messages are handled only after WriteSync succeeded; peer messages and timeouts are written to the WAL before they are handled; handleMsg is entered only from the receive routine and WAL replay",
@@ -137,6 +163,10 @@ func runC05(c *Ctx) {
 	c.NotDec = []string{"consistency of the three persisted heights after a crash at each point (crash-point quantified)", "head repair / rewind correctness", "that the node never signs a conflicting vote after restart (no last-signed state is persisted; needs executions)", "behaviour when the catch-up replay fails with a non-corruption error (OnStart proceeds; no witness built)"}
 	c.Floors["G"] = 8
 	c.Floors["O"] = 12
+	// restart: the last commit is rebuilt against the last validators; the head state looked for is the one recorded for
+	// the head height
+	validatorSetRoles(c)
+	headStateRules(c)
 
 	walAheadRules(c)
 	walDecodeRules(c)
